@@ -111,6 +111,9 @@ type stationRT struct {
 	plan   StationPlan
 	h      *mbox.Handler
 	queued map[string][]byte // valid outbound messages: MID -> serialised
+	// composed: the same messages serialised before the library ever parsed
+	// them (see Msg.BuildFull)
+	composed map[string][]byte
 	order  []string
 	status *StatusRec
 	dir    *dirBox // when set, the real DirHandler is the mailbox (h is unused)
@@ -144,9 +147,9 @@ func (st *stationRT) seed(mid string, raw []byte) {
 }
 
 func newStation(name string, p StationPlan, hist *mbox.History) *stationRT {
-	st := &stationRT{name: name, plan: p, h: mbox.New(name, hist), queued: map[string][]byte{}}
+	st := &stationRT{name: name, plan: p, h: mbox.New(name, hist), queued: map[string][]byte{}, composed: map[string][]byte{}}
 	for _, d := range p.Msgs {
-		_, raw, ok := d.Build()
+		_, raw, composed, ok := d.BuildFull()
 		if !ok {
 			continue
 		}
@@ -154,6 +157,7 @@ func newStation(name string, p StationPlan, hist *mbox.History) *stationRT {
 			continue
 		}
 		st.queued[d.MID] = raw
+		st.composed[d.MID] = composed
 		st.order = append(st.order, d.MID)
 		st.h.Queue(d.MID, raw)
 	}
